@@ -95,6 +95,86 @@ pub fn build_case(spec: SpecId, route: Route, code: &[u8]) -> TxCase {
     c
 }
 
+pub const EOFW: Address = revm::primitives::address!("b0000000000000000000000000000000000000e1"); // EOF contract: SSTORE(0,1); STOP
+
+/// stack-neutral EOF instruction groups (bytes, peak stack height)
+fn eof_alphabet() -> Vec<(&'static str, Vec<u8>, u16)> {
+    let ext = |opc: u8, to: Address, value: Option<u8>| {
+        let mut c = vec![];
+        let mut peak = 3;
+        if let Some(v) = value {
+            if v == 0 {
+                c.push(0x5f);
+            } else {
+                c.extend_from_slice(&[0x60, v]);
+            }
+            peak = 4;
+        }
+        c.extend_from_slice(&[0x5f, 0x5f, 0x73]);
+        c.extend_from_slice(to.as_slice());
+        c.extend_from_slice(&[opc, 0x50]);
+        (c, peak)
+    };
+    let e = |n: &'static str, (c, p): (Vec<u8>, u16)| (n, c, p);
+    vec![
+        ("sstore(0,1)", vec![0x60, 0x01, 0x5f, 0x55], 2),
+        ("sstore(1,5)", vec![0x60, 0x05, 0x60, 0x01, 0x55], 2),
+        ("tstore(0,1)", vec![0x60, 0x01, 0x5f, 0x5d], 2),
+        ("log0", vec![0x5f, 0x5f, 0xa0], 2),
+        ("log1", vec![0x5f, 0x5f, 0x5f, 0xa1], 3),
+        e("extcall BOK value 1", ext(0xf8, BOK, Some(1))),
+        e("extcall BOK value 0", ext(0xf8, BOK, Some(0))),
+        e("extcall EMPTY value 1", ext(0xf8, EMPTY, Some(1))),
+        e("extcall EOF writer", ext(0xf8, EOFW, Some(0))),
+        e("extdelegatecall EOF writer", ext(0xf9, EOFW, None)),
+        e("extstaticcall BWRITE", ext(0xfb, BWRITE, None)),
+        ("eofcreate", vec![0x5f, 0x5f, 0x5f, 0x5f, 0xec, 0x00, 0x50], 4),
+        ("sload(1)", vec![0x60, 0x01, 0x54, 0x50], 1),
+    ]
+}
+/// gas handed to the static call by the legacy driver: plenty, and values around the points where an
+/// EXTCALL with value (2 600 cold + 9 000 transfer) can no longer give its callee the 2 300 + 5 000 minimum
+const STATIC_GAS: [u64; 8] = [600_000, 19_000, 14_000, 13_000, 12_000, 11_650, 9_100, 2_400];
+
+/// OSAKA: EOF code as the code under static mode
+pub fn eof_case(seq: &[usize], gas: Option<u64>) -> TxCase {
+    let al = eof_alphabet();
+    let mut code = vec![];
+    let mut peak = 0;
+    let mut uses_create = false;
+    for i in seq {
+        code.extend_from_slice(&al[*i].1);
+        peak = peak.max(al[*i].2);
+        uses_create |= al[*i].0 == "eofcreate";
+    }
+    code.push(0x00);
+    let mut c = crate::props::c26::Cont::simple(code, peak);
+    if uses_create {
+        c.containers = vec![crate::props::c26::sub_init()];
+    }
+    let t = c.raw();
+    if let Err(e) = revm::interpreter::analysis::validate_raw_eof_inner(t.clone().into(), Some(revm::interpreter::analysis::CodeType::ReturnOrStop)) {
+        eprintln!("MACHINERY: C10 built an invalid EOF container ({e:?})");
+        std::process::exit(2);
+    }
+    let mut w = std_world();
+    w.insert(T, PlainAcc::contract(&t).with_balance(U256::from(10)).with_storage(1, 5));
+    w.insert(EOFW, PlainAcc::contract(&crate::props::c26::Cont::simple(vec![0x60, 0x01, 0x5f, 0x55, 0x00], 2).raw()).with_storage(1, 5));
+    let a = match gas {
+        Some(g) => Asm::new().call(op::STATICCALL, U256::from(g), T, None, 0, 0, 0, 0).op(op::POP).sstore(7, 7).op(op::STOP).build(),
+        None => {
+            let mut code = vec![0x5f, 0x5f, 0x73];
+            code.extend_from_slice(T.as_slice());
+            code.extend_from_slice(&[0xfb, 0x50, 0x60, 0x07, 0x60, 0x07, 0x55, 0x00]);
+            crate::props::c26::Cont::simple(code, 3).raw()
+        }
+    };
+    w.insert(A, PlainAcc::contract(&a).with_balance(U256::from(10)));
+    let mut c = TxCase::new(SpecId::OSAKA, w);
+    c.tx.gas_limit = 2_000_000;
+    c
+}
+
 const OK_RESULTS: [InstructionResult; 6] = [
     InstructionResult::Continue,
     InstructionResult::Stop,
@@ -121,12 +201,18 @@ pub fn check_case(case: &TxCase) -> (Vec<(String, String)>, u64, u64, String) {
             0xf5 => 4,
             0xff => 1,
             0xf1 => 7,
+            // EOF: EXTCALL (target, input offset, input size, value) and EOFCREATE
+            0xf8 if s.is_eof => 4,
+            0xec if s.is_eof => 4,
             _ => continue,
         };
         if s.stack_len_before < need {
             continue;
         }
         if s.op == 0xf1 && s.stack.get(2).map(|x| x.is_zero()).unwrap_or(true) {
+            continue;
+        }
+        if s.op == 0xf8 && s.stack.get(3).map(|x| x.is_zero()).unwrap_or(true) {
             continue;
         }
         write_attempts += 1;
@@ -230,9 +316,59 @@ pub fn run(ctx: &Ctx) -> i32 {
             a
         })
         .collect();
-    let acc = merge_all(accs);
+    let mut acc = merge_all(accs);
+    // OSAKA: EOF code under static mode
+    {
+        let n = eof_alphabet().len();
+        let d = depth - 1;
+        let mut seqs: Vec<Vec<usize>> = vec![vec![]];
+        let mut last: Vec<Vec<usize>> = vec![vec![]];
+        for _ in 0..d {
+            let mut next = vec![];
+            for s in &last {
+                for i in 0..n {
+                    let mut x = s.clone();
+                    x.push(i);
+                    next.push(x);
+                }
+            }
+            seqs.extend(next.iter().cloned());
+            last = next;
+        }
+        let mut ejobs = vec![];
+        for s in &seqs {
+            ejobs.push((s.clone(), None));
+            for g in STATIC_GAS {
+                ejobs.push((s.clone(), Some(g)));
+            }
+        }
+        let eaccs: Vec<Acc> = ejobs
+            .par_chunks(32)
+            .map(|ch| {
+                let mut a = Acc::new();
+                for (seq, g) in ch {
+                    let case = eof_case(seq, *g);
+                    let (v, w, regions, sig) = check_case(&case);
+                    a.evaluations += 1;
+                    a.states += 1;
+                    a.transitions += 1 + seq.len() as u64;
+                    a.bump("static_write_attempts", w);
+                    a.bump("static_regions", regions);
+                    a.bump("eof_code_under_static_cases", 1);
+                    a.distinct(&("eof", seq, g, &sig));
+                    a.outcome(&format!("eof-writes={}", w.min(3)));
+                    let names: Vec<&str> = seq.iter().map(|i| eof_alphabet()[*i].0).collect();
+                    for (k, m) in v {
+                        a.violation(Violation { key: k, msg: format!("OSAKA EOF code {names:?} under a static call with gas {g:?}: {m}"), case: json!({"program": format!("{names:?}"), "case": case}) });
+                    }
+                }
+                a
+            })
+            .collect();
+        acc.merge(merge_all(eaccs));
+    }
     let meta = Meta {
-        rule: format!("every macro program of depth <= {depth} over a 29-macro alphabet (SSTORE incl. no-change writes, TSTORE, LOG, CREATE/CREATE2, SELFDESTRUCT, CALL with value, nested calls to writers) as the code under static mode, reached directly by STATICCALL and through STATICCALL -> CALL/CALLCODE/DELEGATECALL/STATICCALL, on 8 specs Byzantium..Prague, and (one level shallower, OSAKA) from an EOF driver through EXTSTATICCALL and EXTSTATICCALL -> CALL; distinct = distinct (spec, route, nested results, write attempts)"),
+        rule: format!("every macro program of depth <= {depth} over a 29-macro alphabet (SSTORE incl. no-change writes, TSTORE, LOG, CREATE/CREATE2, SELFDESTRUCT, CALL with value, nested calls to writers) as the code under static mode, reached directly by STATICCALL and through STATICCALL -> CALL/CALLCODE/DELEGATECALL/STATICCALL, on 8 specs Byzantium..Prague, and (one level shallower, OSAKA) from an EOF driver through EXTSTATICCALL and EXTSTATICCALL -> CALL; plus EOF code as the code under static mode: every sequence of depth <= depth-1 over 13 EOF instruction groups (SSTORE, TSTORE, LOG, EXTCALL with and without value to an existing / absent account, EXTCALL / EXTDELEGATECALL to an EOF writer, EXTSTATICCALL, EOFCREATE, SLOAD) reached by EXTSTATICCALL and by STATICCALL with 8 gas amounts around the EXTCALL minimum-gas thresholds; distinct = distinct (spec, route, nested results, write attempts)"),
         assumptions: vec!["'world state' excludes access status: warm/cold and the touched mark (a zero-value call touches its target in any mode)".into(), "end-to-end ground truth independent of the static flag: frames opened by STATICCALL / EXTSTATICCALL must be static, no logs and no account other than the driver, sender and coinbase may differ after the transaction".into()],
         bounds: json!({"depth": depth, "routes": 5, "specs": 8}),
         min_distinct: 100,
